@@ -63,10 +63,11 @@ mut("v2_cancelled_waiter_granted", "violation", "include/unifex/v2/async_mutex.h
     cancelled_ = true;""",
     """  if (mutex_.queue_.try_remove(this)) {""",
     "a waiter removed from the queue by its stop request completes with set_value (believes it owns the lock)")
-mut("v2_popped_cancelled_lock_not_released", "violation", "include/unifex/v2/async_mutex.hpp",
+mut("equivalent_v2_popped_cancelled_branch_removed", "clean", "include/unifex/v2/async_mutex.hpp",
     """              op->mutex_.unlock();""",
     """              (void)op;""",
-    "resume_ of a popped waiter that stop already completed does not release the lock again (lock leaked)")
+    "EQUIVALENT mutant: resume_'s 'popped waiter already completed by stop' branch no longer releases the lock; the branch is "
+    "dead code (stop() completes only a waiter it removed itself; TLC invariant PoppedNotCompleted of sync/MutexV2), so the property still holds")
 mut("v2_lifo_grant", "violation", "include/unifex/v2/async_mutex.hpp",
     "  mutex.queue_.push_back(this);",
     "  mutex.queue_.push_front(this);",
